@@ -512,7 +512,20 @@ def model_request(root, ids, before, after, man_before, man_after, cmd, damaged=
 
 
 def reference_run(base, scen, xdg):
-    """Uncrashed traced run of the scenario's command: the event list, the model request, the crash classes."""
+    """Uncrashed traced run of the scenario's command: the event list, the model request, the crash classes.
+    `Incremental::open` silently gives up when `binary_fingerprint()` cannot read the running executable
+    (seen under memory pressure: 8 processes reading a 200 MB binary at once); such a run never opens the
+    store (no `.build/cache/lock`) and is not what the model describes: it is repeated (at most 3 times)."""
+    r = None
+    for attempt in range(3):
+        r = reference_run_once(base, scen, xdg)
+        r["attempts"] = attempt + 1
+        if "T:lock1" in r["word"]:
+            break
+    return r
+
+
+def reference_run_once(base, scen, xdg):
     t = Tree(base, f"ref-{scen}", scen, xdg)
     ids = src_ids(t.root)
     before = disk_state(t.root)
@@ -870,6 +883,7 @@ def run(ctx):
             ctx.cov["evaluations"] += 1
             ctx.cov["traces_validated_against_impl"] += 1
             bump("ref_events", r["nevents"])
+            bump("reference_run_retries", r["attempts"] - 1)
             expect_fail = SCENARIOS[r["scen"]][0] == "warn" and SCENARIOS[r["scen"]][2] == "check"
             if (r["rc"] != 0) != expect_fail:
                 ctx.violation(f"reference run of scenario {r['scen']} ended with rc={r['rc']}",
